@@ -52,7 +52,7 @@ fn coq_values(vals: &[Vec<u8>]) -> String {
 }
 
 /// the largest chunk a skewed input makes the binary encoder emit, by the documented rule
-fn binary_known_class(offs: &[u64], bw: u64) -> bool {
+pub fn binary_known_class(offs: &[u64], bw: u64) -> bool {
     // class Known_C26_binary_doubling_overshoot: some power-of-two window [i, i+2k) whose first k
     // values fit 4 KiB but whose 2k values exceed MAX_MINIBLOCK_BYTES. Evaluated on the input only.
     let n = offs.len() - 1;
@@ -89,8 +89,10 @@ fn binary_known_class(offs: &[u64], bw: u64) -> bool {
 pub fn run_binary(args: &Args, sink: &mut Sink, rng: &mut Rng) {
     const REQ: &str = "Common.Base Codec.Model_Bytes Codec.Model_Binary";
     let mut s_enc = Stream::new("binary_encode", REQ, "chk_binary_encode", "N * list N * list N", "outcome (list (list N) * list chunk)");
+    let mut b_enc = Budget::new(args, 140);
     s_enc.shard = 6;
     let mut s_dec = Stream::new("binary_decode", REQ, "chk_binary_decode", "N * list N * N", "outcome (list N * list N)");
+    let mut b_dec = Budget::new(args, 70);
     s_dec.shard = 10;
     let mut shapes: Vec<(u8, usize, u64)> = vec![(32, 1, 0), (64, 1, 0), (32, 5, 1), (32, 1100, 1), (64, 600, 1), (32, 300, 4), (32, 700, 3), (64, 500, 3)];
     for k in 0..args.vol(22, 500) {
@@ -118,7 +120,7 @@ pub fn run_binary(args: &Args, sink: &mut Sink, rng: &mut Rng) {
             Ok(Err(_)) => Err(false),
             Err(_) => Err(true),
         };
-        s_enc.push(format!("({}, {}, {})", bw, nlist(&offs), coq::bytes(&data)), coq::outcome(&out), human.clone());
+        b_enc.push(&mut s_enc, format!("({}, {}, {})", bw, nlist(&offs), coq::bytes(&data)), coq::outcome(&out), human.clone());
         let known = binary_known_class(&offs, bw);
         match &r {
             Ok(Ok((c, _))) => {
@@ -151,7 +153,7 @@ pub fn run_binary(args: &Args, sink: &mut Sink, rng: &mut Rng) {
                         }
                     };
                     if b0.len() <= 2500 || rng.chance(1, 6) {
-                        s_dec.push(format!("({}, {}, {})", bw, coq::bytes(b0.as_ref()), cn), coq::outcome(&o), json!({"codec": "binary-decode", "bits": bits, "n": cn, "len": b0.len()}));
+                        b_dec.push(&mut s_dec, format!("({}, {}, {})", bw, coq::bytes(b0.as_ref()), cn), coq::outcome(&o), json!({"codec": "binary-decode", "bits": bits, "n": cn, "len": b0.len()}));
                         // a prefix request (the reader may ask for fewer values than the chunk holds)
                         if cn > 1 && rng.chance(1, 4) {
                             let k = rng.range(1, cn - 1);
@@ -162,7 +164,7 @@ pub fn run_binary(args: &Args, sink: &mut Sink, rng: &mut Rng) {
                                 Ok(_) => Err(false),
                                 Err(_) => Err(true),
                             };
-                            s_dec.push(format!("({}, {}, {})", bw, coq::bytes(b0.as_ref()), k), coq::outcome(&o), json!({"codec": "binary-decode", "bits": bits, "n": k, "len": b0.len()}));
+                            b_dec.push(&mut s_dec, format!("({}, {}, {})", bw, coq::bytes(b0.as_ref()), k), coq::outcome(&o), json!({"codec": "binary-decode", "bits": bits, "n": k, "len": b0.len()}));
                         }
                     }
                 }
@@ -183,8 +185,10 @@ pub fn run_binary(args: &Args, sink: &mut Sink, rng: &mut Rng) {
 
     // ---- block layout: VariableEncoder / BinaryBlockDecompressor
     let mut s_be = Stream::new("varblock_encode", REQ, "chk_variable_block_encode", "N * list N * list N", "list N");
+    let mut b_be = Budget::new(args, 50);
     s_be.shard = 30;
     let mut s_bd = Stream::new("varblock_decode", REQ, "chk_variable_block_decode", "list N * N", "outcome (N * list N * list N)");
+    let mut b_bd = Budget::new(args, 60);
     s_bd.shard = 30;
     for k in 0..args.vol(24, 400) {
         let bits: u8 = if k % 2 == 0 { 32 } else { 64 };
@@ -204,7 +208,7 @@ pub fn run_binary(args: &Args, sink: &mut Sink, rng: &mut Rng) {
             oracle(sink, false, "variable block compress failed", human.clone());
             continue;
         };
-        s_be.push(format!("({}, {}, {})", bits / 8, coq::bytes(&off_bytes), coq::bytes(&data)), coq::bytes(buf.as_ref()), human.clone());
+        b_be.push(&mut s_be, format!("({}, {}, {})", bits / 8, coq::bytes(&off_bytes), coq::bytes(&data)), coq::bytes(buf.as_ref()), human.clone());
         let mut reqs: Vec<(Vec<u8>, u64)> = vec![(buf.as_ref().to_vec(), n as u64)];
         // the old header scheme and damaged headers
         if bits == 32 {
@@ -237,7 +241,7 @@ pub fn run_binary(args: &Args, sink: &mut Sink, rng: &mut Rng) {
                 let ok = matches!(&dr, Ok(Ok(DataBlock::VariableWidth(v))) if v.offsets.as_ref() == off_bytes.as_slice() && v.data.as_ref() == data.as_slice() && v.bits_per_offset == bits);
                 oracle(sink, ok, "variable block round trip differs", human.clone());
             }
-            s_bd.push(format!("({}, {})", coq::bytes(&b), nv), coq::outcome(&o), json!({"codec": "variable-block-decode", "len": b.len(), "n": nv}));
+            b_bd.push(&mut s_bd, format!("({}, {})", coq::bytes(&b), nv), coq::outcome(&o), json!({"codec": "variable-block-decode", "len": b.len(), "n": nv}));
         }
     }
     sink.add(s_be);
@@ -247,6 +251,7 @@ pub fn run_binary(args: &Args, sink: &mut Sink, rng: &mut Rng) {
 pub fn run_dict(args: &Args, sink: &mut Sink, rng: &mut Rng) {
     const REQ: &str = "Common.Base Codec.Model_Bytes Codec.Model_Value Codec.Model_Packed";
     let mut s = Stream::new("dict_encode", REQ, "chk_dict_encode", "list (list N)", "list N * list (list N)");
+    let mut b_s = Budget::new(args, 60);
     s.shard = 20;
     for k in 0..args.vol(30, 500) {
         let n = rng.range(1, if args.thorough() { 400 } else { 150 }) as usize;
@@ -287,7 +292,7 @@ pub fn run_dict(args: &Args, sink: &mut Sink, rng: &mut Rng) {
         };
         let ib = (idxb.bits_per_value / 8) as usize;
         let indices = from_bytes(idxb.data.as_ref(), ib);
-        s.push(coq_values(&vals), format!("({}, {})", nlist(&indices), coq_values(&dvals)), human.clone());
+        b_s.push(&mut s, coq_values(&vals), format!("({}, {})", nlist(&indices), coq_values(&dvals)), human.clone());
         // oracle: indices resolve to the input, dictionary has no duplicates
         let back: Vec<Vec<u8>> = indices.iter().map(|i| dvals.get(*i as usize).cloned().unwrap_or_default()).collect();
         let mut dd = dvals.clone();
@@ -301,8 +306,10 @@ pub fn run_dict(args: &Args, sink: &mut Sink, rng: &mut Rng) {
 pub fn run_packed(args: &Args, sink: &mut Sink, rng: &mut Rng) {
     const REQ: &str = "Common.Base Codec.Model_Bytes Codec.Model_Value Codec.Model_Packed";
     let mut s_fe = Stream::new("packed_fixed_encode", REQ, "chk_packed_fixed_encode", "children_t * N", "outcome (list N * list chunk)");
+    let mut b_fe = Budget::new(args, 90);
     s_fe.shard = 6;
     let mut s_fd = Stream::new("packed_fixed_decode", REQ, "chk_packed_fixed_decode", "list N * list N * N", "outcome (list (list N))");
+    let mut b_fd = Budget::new(args, 40);
     s_fd.shard = 8;
     for k in 0..args.vol(16, 300) {
         let nf = rng.range(1, 4) as usize;
@@ -322,7 +329,7 @@ pub fn run_packed(args: &Args, sink: &mut Sink, rng: &mut Rng) {
             Ok(_) => Err(false),
             Err(_) => Err(true),
         };
-        s_fe.push(format!("({}, {})", cin, n), coq::outcome(&out), human.clone());
+        b_fe.push(&mut s_fe, format!("({}, {})", cin, n), coq::outcome(&out), human.clone());
         if let Ok(Ok((c, enc))) = &r {
             let breach = chunk_limit_breach(c, true);
             oracle(sink, breach.is_none(), &format!("packed struct chunk limits: {}", breach.clone().unwrap_or_default()), human.clone());
@@ -354,7 +361,7 @@ pub fn run_packed(args: &Args, sink: &mut Sink, rng: &mut Rng) {
                     }
                 };
                 if b0.len() <= 3000 {
-                    s_fd.push(format!("({}, {}, {})", coq::list(widths.iter().map(|w| w.to_string())), coq::bytes(b0.as_ref()), cn), coq::outcome(&o), json!({"codec": "packed-fixed-decode", "n": cn}));
+                    b_fd.push(&mut s_fd, format!("({}, {}, {})", coq::list(widths.iter().map(|w| w.to_string())), coq::bytes(b0.as_ref()), cn), coq::outcome(&o), json!({"codec": "packed-fixed-decode", "n": cn}));
                 }
             }
             oracle(sink, ok && back == children, "packed struct (fixed) round trip differs", human.clone());
@@ -367,8 +374,10 @@ pub fn run_packed(args: &Args, sink: &mut Sink, rng: &mut Rng) {
 
     // ---- variable packed struct, per value (file version 2.2)
     let mut s_ve = Stream::new("packed_var_encode", REQ, "chk_packed_var_encode", "list pfield_t * N", "list (list N)");
+    let mut b_ve = Budget::new(args, 60);
     s_ve.shard = 12;
     let mut s_vd = Stream::new("packed_var_decode", REQ, "chk_packed_var_decode", "list (bool * N) * list (list N)", "outcome (list (list (list N)))");
+    let mut b_vd = Budget::new(args, 60);
     s_vd.shard = 12;
     let strat = DefaultCompressionStrategy::new().with_version(LanceFileVersion::V2_2);
     for _ in 0..args.vol(24, 400) {
@@ -416,7 +425,7 @@ pub fn run_packed(args: &Args, sink: &mut Sink, rng: &mut Rng) {
             continue;
         };
         let row_vals = values_of(&var_offsets(&rows), rows.data.as_ref());
-        s_ve.push(format!("({}, {})", coq::list(cin), n), coq_values(&row_vals), human.clone());
+        b_ve.push(&mut s_ve, format!("({}, {})", coq::list(cin), n), coq_values(&row_vals), human.clone());
         let dstrat = DefaultDecompressionStrategy::default();
         let dec = catch(|| dstrat.create_variable_per_value_decompressor(&desc));
         let Ok(Ok(dec)) = dec else {
@@ -458,7 +467,7 @@ pub fn run_packed(args: &Args, sink: &mut Sink, rng: &mut Rng) {
             if qi == 0 {
                 oracle(sink, got == expect, "packed struct (variable) round trip differs", human.clone());
             }
-            s_vd.push(format!("({}, {})", kin, coq_values(&qvals)), coq::outcome(&o), json!({"codec": "packed-variable-decode", "kinds": kinds, "damaged": qi > 0}));
+            b_vd.push(&mut s_vd, format!("({}, {})", kin, coq_values(&qvals)), coq::outcome(&o), json!({"codec": "packed-variable-decode", "kinds": kinds, "damaged": qi > 0}));
         }
     }
     sink.add(s_ve);
